@@ -282,7 +282,7 @@ Definition check_reset_ord keep init ntx c hh h (p : bool) (obs : list obatch) (
   let m :=
     match find_order pred0 obs [5; 4; 3; 2; 1; 0]%nat with
     | Some (j, al) =>
-        reset_admissible 0 j &&                                   (* an order the unbuffered hand-over admits *)
+        reset_admissible 0 j &&                                   (* an order the unbuffered hand-over lets_in *)
         all2 (fun (w : bool) (o : obatch) => Bool.eqb w (fst o)) who obs &&   (* the direct write is the collection *)
         list_eqb rres_eqb recov
           (map (fun i => boot_s fx ntx (apply_all d (firstn i (reset_order pred0 j)))) (O :: al))
